@@ -103,6 +103,46 @@ class SwapLetters(SymmetryStrategy[AvoidingWithPrefix, Word]):
         return cls()
 
 
+class SwapLettersOneWay(DisjointUnionStrategy[AvoidingWithPrefix, Word]):
+    """The same map as SwapLetters offered as an ordinary ONE-WAY unary rule (is_two_way
+    False): cycles of such rules only become equivalences through connect_cycles."""
+
+    def __init__(self):
+        super().__init__(ignore_parent=False, inferrable=False, possibly_empty=False, workable=True)
+
+    def decomposition_function(self, c):
+        if len(c.alphabet) < 2:
+            return None
+        sw = SwapLetters._swap
+        return (AvoidingWithPrefix(sw(c.prefix, c.alphabet), [sw(p, c.alphabet) for p in c.patterns],
+                                   c.alphabet, c.just_prefix),)
+
+    def is_two_way(self, comb_class):
+        return False
+
+    def is_reversible(self, comb_class):
+        return False
+
+    def formal_step(self):
+        return "swap the first two letters (one way)"
+
+    def forward_map(self, comb_class, obj, children=None):
+        return (Word(SwapLetters._swap(obj, comb_class.alphabet)),)
+
+    def backward_map(self, comb_class, objs, children=None):
+        yield Word(SwapLetters._swap(objs[0], comb_class.alphabet))
+
+    def __repr__(self):
+        return "SwapLettersOneWay()"
+
+    def __str__(self):
+        return self.formal_step()
+
+    @classmethod
+    def from_dict(cls, d):
+        return cls()
+
+
 class WordFactory(StrategyFactory[AvoidingWithPrefix]):
     """Yields a strategy, a ready rule, and (mode 2) the expansion rule of the
     class whose prefix is one letter shorter (a rule with another parent)."""
@@ -188,6 +228,8 @@ PACKS = {
                                   [AtomStrategy(), ShortPatternsVerified()], name="verif"),
     "two_sets": lambda: StrategyPack([], [], [[RemoveFrontOfPrefix()], [ExpansionStrategy()]], [AtomStrategy()],
                                      name="two_sets"),
+    "oneway": lambda: StrategyPack([RemoveFrontOfPrefix(), SwapLettersOneWay()], [], [[ExpansionStrategy()]],
+                                   [AtomStrategy()], name="oneway"),
     "iterative": lambda: StrategyPack([RemoveFrontOfPrefix()], [], [[ExpansionStrategy()]], [AtomStrategy()],
                                       name="iterative", iterative=True),
 }
@@ -209,6 +251,8 @@ START_SPECS = [
     ("", [], "ab"),
     ("", ["a"], "ab"),
     ("", ["b", "aa"], "ab"),
+    ("", ["ab", "ba"], "ab"),      # swap-invariant
+    ("", ["aab", "bba"], "ab"),    # swap-invariant
 ]
 
 
